@@ -98,15 +98,16 @@ func seq(n int) []int {
 }
 
 type c02Case struct {
-	Key       keyChoice
-	Signers   []int
-	Msg       B
-	LenCls    string
-	FBL       bool // pass fullBytesLen = len(Msg)
-	Sched     SchedSpec
-	Steer     string // "", "r-lead0", "s-lead0", "r+s-lead0": force an encoding with a zero top byte
-	SteerSd   int
-	ShortSSID bool // dealer keys only: search for a key whose session id has a leading zero byte
+	Key         keyChoice
+	Signers     []int
+	Msg         B
+	LenCls      string
+	FBL         bool // pass fullBytesLen = len(Msg)
+	Sched       SchedSpec
+	Steer       string // "", "r-lead0", "s-lead0", "r+s-lead0": force an encoding with a zero top byte
+	SteerSd     int
+	OtherGlobal bool // the process-global curve is left at secp256k1 although the parameters carry edwards25519
+	ShortSSID   bool // dealer keys only: search for a key whose session id has a leading zero byte
 }
 
 func genC02(t *rapid.T) c02Case {
@@ -143,6 +144,7 @@ func genC02(t *rapid.T) c02Case {
 	c.Steer = rapid.SampledFrom([]string{"", "", "", "r-lead0", "s-lead0", "r+s-lead0"}).Draw(t, "steer")
 	c.SteerSd = rapid.IntRange(0, 1<<30).Draw(t, "steerseed")
 	c.ShortSSID = c.Key.Src == "dealer" && rapid.IntRange(0, 3).Draw(t, "shortssid") == 0
+	c.OtherGlobal = rapid.Bool().Draw(t, "otherGlobal")
 	return c
 }
 
@@ -232,6 +234,10 @@ func runC02(c c02Case) ev.Outcome {
 	fail := func(sig, f string, a ...interface{}) ev.Outcome {
 		out.Err, out.Sig = fmt.Errorf(f, a...), sig
 		return out
+	}
+	setGlobalCurve(true, c.OtherGlobal)
+	if c.OtherGlobal {
+		out.Label += " global-curve=other"
 	}
 	if c.ShortSSID && c.Key.Src == "dealer" {
 		var short bool
